@@ -605,6 +605,10 @@ def history_doc(rng) -> str:
             lines = [f"- {rng.choice(H_WORDS)}", f"- {rng.choice(H_WORDS)}"]
         elif r < 0.65:
             lines = [f"See :ref:`{rng.choice(H_WORDS)}` and :{rng.choice(['method', 'binary', 'guilabel', 'nosuch'])}:`{rng.choice(H_WORDS)}`."]
+        elif r < 0.72:
+            # names that live in more than one domain: which one an unqualified use means depends on the default domain
+            lines = [rng.choice([".. option:: --verbose", ".. data:: limit", ".. func:: find()", ".. method:: db.x()"]), "",
+                     f"   Use :option:`--verbose` with :data:`limit`, :func:`find()` and :ref:`{rng.choice(H_WORDS)}`."]
         elif r < 0.8:
             lines = ["-" * rng.choice([4, 8, 20])]
         elif r < 0.9:
@@ -639,9 +643,17 @@ def history_doc(rng) -> str:
     return "\n".join(out) + ("\n" if rng.random() < 0.7 else "")
 
 
+H_DOMAINS = [None, None, "mongodb", "mongomirror", "py", "js", "std"]
+
+
+def history_domains(docs):
+    """the default domain of the project each document belongs to: a function of the text, so that shrinking keeps it"""
+    return [H_DOMAINS[int(hashlib.blake2b(d.encode("utf-8"), digest_size=2).hexdigest(), 16) % len(H_DOMAINS)] for d in docs]
+
+
 def run_history(docs, order, base: Path, tag: str):
     req, res = base / f"hist-{tag}-in.json", base / f"hist-{tag}-out.json"
-    req.write_text(json.dumps({"docs": docs, "order": order}, ensure_ascii=False), encoding="utf-8")
+    req.write_text(json.dumps({"docs": docs, "order": order, "domains": history_domains(docs)}, ensure_ascii=False), encoding="utf-8")
     env = {k: v for k, v in os.environ.items()}
     env["PYTHONHASHSEED"] = "0"
     env["PYTHONPATH"] = str(core.REPO)
